@@ -542,7 +542,7 @@ def run(ctx: lib.Ctx) -> None:
     bad_groups = ctx.coq_mismatches('ep', IMPORTS, 'fun c => map (std_run (fst c)) (snd c)', 'list_eqb std_answer_eqb',
                                     'uty sty * list query', 'list (answer sty)', cases, shard=60)
     bad = []
-    for g in bad_groups:     # pin the disagreement down to single queries
+    for g in bad_groups[:3]:     # pin the disagreement down to single queries (first few groups suffice for the replay)
         lo, hi = groups[g]
         sub_cases = [(f'({ty_coq(meta[i][0])}, {query_coq(meta[i][1])})', answer_coq(meta[i][1], meta[i][2])) for i in range(lo, hi)]
         sub_bad = ctx.coq_mismatches('ep1', IMPORTS, 'fun c => std_run (fst c) (snd c)', 'std_answer_eqb',
